@@ -117,6 +117,7 @@ pub fn enabled(w: &World, cfg: &Cfg) -> Vec<Op> {
                 add(&mut v, Op::new(K::BIntoVec, i, 0, 0, 0));
                 add(&mut v, Op::new(K::BIntoVec, i, 0, 1, 0));
                 add(&mut v, Op::new(K::BDrop, i, 0, 0, 0));
+                add(&mut v, Op::new(K::BIntoIter, i, 0, 0, 0));
                 if cfg.ooc {
                     add(&mut v, Op::new(K::BSlice, i, 0, 0, l + 1));
                     add(&mut v, Op::new(K::BSlice, i, 0, 2, 1));
@@ -183,6 +184,17 @@ pub fn enabled(w: &World, cfg: &Cfg) -> Vec<Op> {
                     add(&mut v, Op::new(K::MExtend, i, 0, a, 0));
                 }
                 add(&mut v, Op::new(K::MPutU8, i, 0, 0, 0));
+                for a in dedup_sorted(vec![0, 1, c - l, c - l + 1].into_iter().filter(|&a| a <= 8).collect()) {
+                    add(&mut v, Op::new(K::MPutBytes, i, 0, a, 0));
+                    add(&mut v, Op::new(K::MWriteStr, i, 0, a, 0));
+                    add(&mut v, Op::new(K::MChunkMut, i, 0, a, 0));
+                }
+                for a in dedup_sorted(vec![0, 2, c - l + 1].into_iter().filter(|&a| a <= 8).collect()) {
+                    add(&mut v, Op::new(K::MPutBuf, i, 0, a, 1));
+                    add(&mut v, Op::new(K::MExtendIter, i, 0, a, 0));
+                }
+                add(&mut v, Op::new(K::MExtendIter, i, 0, 1, 1));
+                add(&mut v, Op::new(K::MIntoIter, i, 0, 0, 0));
                 if l > 0 {
                     add(&mut v, Op::new(K::MWrite, i, 0, 0, 0));
                 }
